@@ -34,7 +34,9 @@ def summaries(log):
         return cx.NDArr(cx.Store(('restricted', p.store.uid, sc)))
 
     def basemesh(it, args, kw, node):
-        h, origin = args[0], args[1]
+        b = dict(zip(('h', 'origin'), args))          # effective parameters of BaseMesh(h, origin) by name
+        b.update(kw)
+        h, origin = b.get('h'), b.get('origin')
         g = mk_grid('c_')
         g.fields['__built_from__'] = (h, origin)
         log.append(('BaseMesh', h, origin, g))
